@@ -31,7 +31,8 @@ class C01(PropertyCheck):
             "bucket's address (None after the round trip). Non-trivial = content with at least one "
             "string or c-string and one pointer or label; distinct = distinct case line.")
     assumptions = ["A-codec: strings are Shift-JIS byte lists that encoding_rs round-trips losslessly (table checked by harness kind `sjischk`)",
-                   "big-endian label names are drawn from ASCII + kana, where Rust's String order equals the byte order of the encoded names"]
+                   "big-endian label order: the model's sort key of every name is the library's own decoding of it (case-line group K, "
+                   "gen/namekeys.py); names are not restricted"]
 
     def __init__(self):
         self.meta = {}
@@ -81,7 +82,7 @@ class C01(PropertyCheck):
             line = pyarchive.render_case(e, 0, [("from", [barandom.hexb(f)]), ("lvl", ["3"])])
             cs = Case(line, "knob-files")
             r = ref_of_content(c, patched)
-            self.meta[line] = (r.state(1), "B" + r.canonical_image()[0].hex() if r.in_domain() else None)
+            self.meta[cs.line] = (r.state(1), "B" + r.canonical_image()[0].hex() if r.in_domain() else None)
             cases.append(cs)
         # (C) game files
         for path in sorted(glob.glob(os.path.join(REPO, "resources", "test", "*"))):
@@ -189,6 +190,7 @@ MANIFEST = dict(
               "empty buckets serializes like the one without them is checked by correspondence and oracle, not proved. No theorem derives "
               "wf_archive from API histories (C03_invariant gives only cells-inside-data). "
               "Modelled, not verified: HashMap order (association lists; theorems quantify over permutations), Cursor, Vec (A-std); strings "
-              "are Shift-JIS encoded bytes (A-codec); label-name order is byte order (equal to Rust's String order on ASCII+kana names).",
+              "are Shift-JIS encoded bytes (A-codec); the big-endian label order compares a sort key per name that is a parameter of the model "
+              "(every theorem holds for every key function) and is supplied by the library's own decoder on every run.",
     technique="Coq proof (format relation, loop invariants over the pointer and label tables, text-pool invariant) + extracted-model differential check",
     ref="DESIGN.md section 2 (C01)")
